@@ -57,7 +57,7 @@ func c08MakeLagWorkload(seed int64, idx int, H int) *c08Workload {
 				NewestRecords: map[types.ChangeLogType]types.VersionRecord{1: {Version: uint32(h + 1), Height: uint32(h)}},
 				Candidate:     types.Candidate{Votes: new(big.Int), Profile: make(types.Profile)},
 			}
-			state[a.Hex()] = acc.Balance.String()
+			state[a.Hex()] = c08AccDigest(acc)
 			ch = append(ch, acc)
 		}
 		w.Changes = append(w.Changes, ch)
@@ -144,8 +144,13 @@ func c08LagRun(c *Ctx, base string, wl int, w *c08Workload, stopIdx int, tag str
 			panic(fmt.Sprintf("lag: SetStableBlock(%d): %v", h, err))
 		}
 	}
-	promote(1)
-	promote(2)
+	if stopIdx%2 == 0 {
+		promote(1)
+		promote(2)
+	} else {
+		promote(2) // ONE SetStableBlock call that commits block 1 and then block 2 (chain_database.go commit loop)
+		c.Count("lag:multi-block-promotion")
+	}
 	fifo := scanWal() // batch 1 ++ batch 2, in queue order (tmp.data was empty: the queue was idle)
 	res.total = len(fifo)
 	// stop positions: the writer can be held in front of record p iff its bitcask differs from the one held before
